@@ -129,5 +129,168 @@ theorem dispatch_vendor_ok (h : Cmd.ofByte cmd = .getVendorDefinedMessageSupport
   exact this
 end arms
 
+/-! ### every outcome of `dispatch` -/
+
+/-- a response encoder call either panics leaving the buffer alone or writes the response packet -/
+theorem respond_ctrl_cases (c : Ctx) (dst : B) (e : Enc) (buf : Bytes) (cmd : Cmd) (data : Bytes)
+    (hbody : ∀ t hd d, e.body c = .ok (t, hd, d) → t = .control ∧ hd = some (ctrlHeader false cmd) ∧ d = data) :
+    (∃ k, respond c dst e buf = (c, .panic k, buf)) ∨
+    (respond c dst e buf =
+        (c, .ok (12 + data.length), respPkt c.address dst cmd.toByte data ++ buf.drop (12 + data.length)) ∧
+      12 + data.length ≤ buf.length) := by
+  rcases respond_cases c dst e buf with ⟨n, buf', hr, he⟩ | h
+  · right
+    obtain ⟨t, hd, d, hb, _, _, hn, hle, hbuf⟩ := encode_ok_inv c dst e buf buf' n he
+    obtain ⟨rfl, rfl, rfl⟩ := hbody t hd d hb
+    rw [ctrlHeader_optLen] at hn
+    have hn' : n = 12 + d.length := by omega
+    subst hn'
+    rw [respPkt_eq] at hbuf
+    subst hbuf
+    exact ⟨hr, hle⟩
+  · exact .inl h
+
+/-- `dispatch` either panics leaving the buffer alone, or writes one control response whose first
+data byte (the completion code) is Success or Invalid-Data -/
+theorem dispatch_cases (c : Ctx) (cmd src : B) (pay : Nat → B) (buf : Bytes) :
+    (∃ c' k, dispatch c cmd src pay buf = (c', .panic k, buf)) ∨
+    (∃ c' cc rest, (cc = 0x00#8 ∨ cc = 0x02#8) ∧ 1 ≤ cmd.toNat ∧ cmd.toNat ≤ 6 ∧
+      13 + rest.length ≤ buf.length ∧
+      dispatch c cmd src pay buf =
+        (c', .ok (13 + rest.length),
+          respPkt c.address src cmd (cc :: rest) ++ buf.drop (13 + rest.length))) := by
+  have key : ∀ (c' : Ctx) (e : Enc) (cm : Cmd) (cc : B) (rest : Bytes), c'.address = c.address → cm.toByte = cmd →
+      (cc = 0x00#8 ∨ cc = 0x02#8) → 1 ≤ cmd.toNat → cmd.toNat ≤ 6 →
+      (∀ t hd d, e.body c' = .ok (t, hd, d) → t = .control ∧ hd = some (ctrlHeader false cm) ∧ d = cc :: rest) →
+      (∃ c'' k, respond c' src e buf = (c'', .panic k, buf)) ∨
+      (∃ c'' cc rest, (cc = 0x00#8 ∨ cc = 0x02#8) ∧ 1 ≤ cmd.toNat ∧ cmd.toNat ≤ 6 ∧
+        13 + rest.length ≤ buf.length ∧
+        respond c' src e buf =
+          (c'', .ok (13 + rest.length),
+            respPkt c.address src cmd (cc :: rest) ++ buf.drop (13 + rest.length))) := by
+    intro c' e cm cc rest ha hcm hcc h1 h6 hbody
+    rcases respond_ctrl_cases c' src e buf cm (cc :: rest) hbody with ⟨k, hk⟩ | ⟨hr, hle⟩
+    · exact .inl ⟨_, _, hk⟩
+    · right
+      have e1 : 12 + (cc :: rest).length = 13 + rest.length := by simp; omega
+      rw [e1, ha, hcm] at hr
+      exact ⟨c', cc, rest, hcc, h1, h6, by omega, hr⟩
+  rcases cmdCase cmd with ⟨h, e⟩ | ⟨h, e⟩ | ⟨h, e⟩ | ⟨h, e⟩ | ⟨h, e⟩ | ⟨h, e⟩ | ⟨h, e⟩ | ⟨h, hne⟩
+  · rw [dispatch_reserved c cmd src pay buf h]; exact .inl ⟨_, _, rfl⟩
+  · rw [dispatch_setEid c cmd src pay buf h]
+    subst e
+    split
+    · exact key _ _ .setEndpointID 0x00#8 [0x00#8, pay 1, 0x00#8] rfl rfl (.inl rfl) (by decide) (by decide)
+        (by intro t hd d hb; simp [Enc.body] at hb; simp [hb])
+    · split
+      · exact .inl ⟨_, _, rfl⟩
+      · split
+        · exact key _ _ .setEndpointID 0x02#8 [0x00#8, c.respEid, 0x00#8] rfl rfl (.inr rfl) (by decide) (by decide)
+            (by intro t hd d hb; simp [Enc.body] at hb; simp [hb])
+        · exact .inl ⟨_, _, rfl⟩
+  · rw [dispatch_getEid c cmd src pay buf h]
+    subst e
+    exact key _ _ .getEndpointID 0x00#8 [c.respEid, 0x00#8, 0x00#8] rfl rfl (.inl rfl) (by decide) (by decide)
+      (by intro t hd d hb; simp [Enc.body] at hb; simp [hb])
+  · rw [dispatch_uuid c cmd src pay buf h]
+    subst e
+    exact key _ _ .getEndpointUUID 0x00#8 c.uuid rfl rfl (.inl rfl) (by decide) (by decide)
+      (by intro t hd d hb; simp [Enc.body] at hb; simp [hb])
+  · rw [dispatch_version c cmd src pay buf h]
+    subst e
+    exact key _ _ .getMCTPVersionSupport 0x00#8 [0x01#8, 0xF1#8, 0xF3#8, 0xF1#8, 0x00#8] rfl rfl (.inl rfl)
+      (by decide) (by decide) (by intro t hd d hb; simp [Enc.body] at hb; simp [hb])
+  · rw [dispatch_msgTypes c cmd src pay buf h]
+    subst e
+    exact key _ _ .getMessageTypeSupport 0x00#8 (BitVec.ofNat 8 c.msgTypes.length :: c.msgTypes) rfl rfl (.inl rfl)
+      (by decide) (by decide) (by intro t hd d hb; simp only [Enc.body] at hb; split at hb <;> simp at hb; simp [hb])
+  · rw [dispatch_vendor c cmd src pay buf h]
+    subst e
+    split
+    · exact .inl ⟨_, _, rfl⟩
+    · split
+      · exact .inl ⟨_, _, rfl⟩
+      · split
+        · rename_i f _
+          exact key _ _ .getVendorDefinedMessageSupport 0x00#8 (nextSel c (pay 0) :: f) rfl rfl (.inl rfl)
+            (by decide) (by decide)
+            (by intro t hd d hb; simp only [Enc.body] at hb; split at hb <;> simp at hb; simp [hb])
+        · exact .inl ⟨_, _, rfl⟩
+  · rw [dispatch_other c cmd src pay buf hne]; exact .inl ⟨_, _, rfl⟩
+
+/-! ### every outcome of `process` -/
+
+/-- the three shapes of a `process_packet` outcome -/
+theorem process_cases (c : Ctx) (p buf : Bytes) :
+    -- no dispatch: the decoder's outcome, nothing written, context unchanged
+    ((∀ d, decode p = .ok d → (Spec.isControl p && Spec.isRequest p) = false) ∧
+      process c p buf = (c, (decode p).map (fun d => (d, none)), buf)) ∨
+    -- dispatch panics: nothing written
+    (Spec.isAcceptedRequest p = true ∧ Spec.reqUnimpl (byteAt p 10) = false ∧
+      decode p = .ok (.control, 11, p.length - 12) ∧
+      ∃ c' k, dispatch c (byteAt p 10) (byteAt p 6) (fun i => byteAt p (11 + i)) buf = (c', .panic k, buf) ∧
+        process c p buf = (c', .panic k, buf)) ∨
+    -- dispatch answers
+    (Spec.isAcceptedRequest p = true ∧ Spec.reqUnimpl (byteAt p 10) = false ∧
+      decode p = .ok (.control, 11, p.length - 12) ∧
+      ∃ c' cc rest, (cc = 0x00#8 ∨ cc = 0x02#8) ∧ 1 ≤ (byteAt p 10).toNat ∧ (byteAt p 10).toNat ≤ 6 ∧
+        13 + rest.length ≤ buf.length ∧
+        dispatch c (byteAt p 10) (byteAt p 6) (fun i => byteAt p (11 + i)) buf =
+          (c', .ok (13 + rest.length),
+            respPkt c.address (byteAt p 6) (byteAt p 10) (cc :: rest) ++ buf.drop (13 + rest.length)) ∧
+        process c p buf =
+          (c', .ok ((.control, 11, p.length - 12), some (13 + rest.length)),
+            respPkt c.address (byteAt p 6) (byteAt p 10) (cc :: rest) ++ buf.drop (13 + rest.length))) := by
+  by_cases hq : ∃ d, decode p = .ok d ∧ (Spec.isControl p && Spec.isRequest p) = true
+  · obtain ⟨d, hd, hcr⟩ := hq
+    right
+    have hc : Spec.isControl p = true := by simp at hcr; exact hcr.1
+    have hr : Spec.isRequest p = true := by simp at hcr; exact hcr.2
+    obtain ⟨ha, hu, rfl⟩ := decode_ok_request p d hd hc hr
+    rw [process_accepted c p buf ha hu]
+    rcases dispatch_cases c (byteAt p 10) (byteAt p 6) (fun i => byteAt p (11 + i)) buf with
+      ⟨c', k, hk⟩ | ⟨c', cc, rest, hcc, h1, h6, hle, hk⟩
+    · left
+      refine ⟨ha, hu, hd, c', k, hk, ?_⟩
+      rw [hk]; rfl
+    · right
+      refine ⟨ha, hu, hd, c', cc, rest, hcc, h1, h6, hle, hk, ?_⟩
+      rw [hk]; rfl
+  · left
+    have hq' : ∀ d, decode p = .ok d → (Spec.isControl p && Spec.isRequest p) = false := by
+      intro d hd
+      cases hx : (Spec.isControl p && Spec.isRequest p)
+      · rfl
+      · exact absurd ⟨d, hd, hx⟩ hq
+    refine ⟨hq', ?_⟩
+    rw [process_eq_decode]
+    cases hd : decode p with
+    | err e => rfl
+    | panic k => rfl
+    | ok d => simp [hq' d hd, Out.map]
+
+/-- `process` changes at most the two EID cells and the selector cell -/
+theorem process_fst (c : Ctx) (p buf : Bytes) :
+    ∃ r q s, (process c p buf).1 = { c with reqEid := r, respEid := q, selector := s } := by
+  rcases process_cases c p buf with ⟨_, h⟩ | ⟨_, _, _, c', k, hd, h⟩ | ⟨_, _, _, c', cc, rest, _, _, _, _, hd, h⟩
+  · rw [h]; exact ⟨_, _, _, rfl⟩
+  · obtain ⟨r, q, s, hf⟩ := dispatch_fst c (byteAt p 10) (byteAt p 6) (fun i => byteAt p (11 + i)) buf
+    rw [hd] at hf; rw [h]; exact ⟨r, q, s, hf⟩
+  · obtain ⟨r, q, s, hf⟩ := dispatch_fst c (byteAt p 10) (byteAt p 6) (fun i => byteAt p (11 + i)) buf
+    rw [hd] at hf; rw [h]; exact ⟨r, q, s, hf⟩
+
+theorem stepOp_process (c : Ctx) (p buf : Bytes) :
+    stepOp c (.process p buf) = ((process c p buf).1, .processed (process c p buf).2.1 (process c p buf).2.2) := rfl
+
+theorem runOps_cons (c : Ctx) (op : Op) (ops : List Op) :
+    runOps c (op :: ops) = ((runOps (stepOp c op).1 ops).1, (stepOp c op).2 :: (runOps (stepOp c op).1 ops).2) := rfl
+
+/-- an accepted request whose `dispatch` answers -/
+theorem process_of_dispatch (c : Ctx) (p buf : Bytes) (ha : Spec.isAcceptedRequest p = true)
+    (hu : Spec.reqUnimpl (byteAt p 10) = false) (c' : Ctx) (r : Out DErr Nat) (buf' : Bytes)
+    (hd : dispatch c (byteAt p 10) (byteAt p 6) (fun i => byteAt p (11 + i)) buf = (c', r, buf')) :
+    process c p buf = (c', r.map (fun n => ((MsgType.control, 11, p.length - 12), some n)), buf') := by
+  rw [process_accepted c p buf ha hu, hd]
+
 end Proc
 end Mctp
